@@ -1121,7 +1121,13 @@ impl DB {
         }
 
         let mut was_memtable_reused = false;
-        if self.options.reuse_log_files() && is_last_wal && num_compactions == 0 {
+        // A log that ends with a torn write is not reused: records appended behind the torn
+        // fragment could not be read back.
+        if self.options.reuse_log_files()
+            && is_last_wal
+            && num_compactions == 0
+            && !wal_reader.ended_mid_fragment()
+        {
             log::info!("Reusing WAL file: {wal_path:?}.", wal_path = &wal_path);
             drop(wal_reader);
             if let Ok(wal_writer) =
